@@ -61,6 +61,8 @@ pub struct Replay {
     pub family: String,
     pub verif_seed: u64,
     pub index: u64,
+    #[serde(default)]
+    pub case: usize,
     /// "run" (scenario + trace) or "process" (whole-process crash/stall: re-run by seed in a child)
     pub kind: String,
     pub scenario: Option<Scenario>,
@@ -104,6 +106,10 @@ fn out_line(s: &str) {
     let _ = l.flush();
 }
 
+pub fn clone_cfg(c: &RunCfg) -> RunCfg {
+    CfgRec::from(c).to()
+}
+
 pub fn replay_dir() -> String {
     std::env::var("VERIF_REPLAY_DIR").unwrap_or_else(|_| format!("{VERIF_ROOT}/replays"))
 }
@@ -115,7 +121,11 @@ pub fn history_lines(rr: &RunResult) -> Vec<String> {
 pub fn write_replay(r: &Replay) -> String {
     let dir = replay_dir();
     let _ = std::fs::create_dir_all(&dir);
-    let path = format!("{}/{}-{}-{}.json", dir, r.property, r.family, r.index);
+    let path = if r.case > 0 {
+        format!("{}/{}-{}-{}.{}.json", dir, r.property, r.family, r.index, r.case)
+    } else {
+        format!("{}/{}-{}-{}.json", dir, r.property, r.family, r.index)
+    };
     let _ = std::fs::write(&path, serde_json::to_string_pretty(r).unwrap());
     path
 }
@@ -132,70 +142,83 @@ pub fn worker(lane: &Lane, verif_seed: u64, shard: u64, of: u64, count: u64, sta
     sum.first_index = index;
     while index < count {
         out_line(&format!("S {index}"));
-        let (sc, cfg, rr) = lanes::execute(lane, verif_seed, index);
-        sum.runs += 1;
-        sum.last_index = index;
-        sum.sim_ms += rr.end_ms;
-        sum.stats.merge(&rr.stats);
-        scheds.insert(rr.sched_hash);
-        abs.extend(rr.abs_states.iter().copied());
-        let nt = (lane.nontrivial)(&sc, &rr);
-        if nt {
-            sum.nontrivial += 1;
-            shapes.insert(lanes::shape_hash(&rr));
-            if sum.samples.len() < 2 && shard == 0 {
-                sum.samples.push(serde_json::json!({
-                    "index": index,
-                    "scenario": &sc,
-                    "decision_trace_len": rr.trace.len(),
-                    "decision_trace_head": rr.trace.iter().take(40).collect::<Vec<_>>(),
-                    "history": history_lines(&rr).into_iter().take(60).collect::<Vec<_>>(),
-                }));
+        let cases = lanes::cases(lane, verif_seed, index);
+        for (case_ix, case) in cases.iter().enumerate() {
+            if case_ix > 0 {
+                out_line(&format!("S {index}.{case_ix}"));
             }
-        }
-        if index % 101 == 0 {
-            sum.determinism_checked += 1;
-            let (_, _, rr2) = lanes::execute(lane, verif_seed, index);
-            if rr2.hist_hash != rr.hist_hash {
-                sum.determinism_mismatches += 1;
-                out_line(&format!("D {index}"));
+            let rr = case.run();
+            let sc = &case.sc;
+            // replays of a recorded trace are complete: they must not leave the trace when the fault fires
+            let cfg_replay = RunCfg { diverge_seed: None, ..clone_cfg(&case.cfg) };
+            let cfg = &cfg_replay;
+            sum.runs += 1;
+            sum.last_index = index;
+            sum.sim_ms += rr.end_ms;
+            sum.stats.merge(&rr.stats);
+            scheds.insert(rr.sched_hash);
+            abs.extend(rr.abs_states.iter().copied());
+            let nt = (lane.nontrivial)(sc, &rr);
+            if nt {
+                sum.nontrivial += 1;
+                shapes.insert(lanes::shape_hash(&rr));
+                if sum.samples.len() < 2 && shard == 0 {
+                    sum.samples.push(serde_json::json!({
+                        "index": index,
+                        "case": case_ix,
+                        "case_label": &case.label,
+                        "scenario": sc,
+                        "decision_trace_len": rr.trace.len(),
+                        "decision_trace_head": rr.trace.iter().take(40).collect::<Vec<_>>(),
+                        "history": history_lines(&rr).into_iter().filter(|l| !l.contains("NetDeliver")).take(60).collect::<Vec<_>>(),
+                    }));
+                }
             }
-        }
-        let vs = (lane.check)(&sc, &rr);
-        if !vs.is_empty() {
-            let mut seen_keys = BTreeSet::new();
-            for v in vs {
-                let key = v.key();
-                if !seen_keys.insert(key.clone()) {
-                    continue;
+            if index % 101 == 0 && case_ix % 37 == 0 {
+                sum.determinism_checked += 1;
+                let rr2 = case.run();
+                if rr2.hist_hash != rr.hist_hash {
+                    sum.determinism_mismatches += 1;
+                    out_line(&format!("D {index}"));
                 }
-                *sum.violations.entry(key.clone()).or_insert(0) += 1;
-                let n = reported.entry(key.clone()).or_insert(0);
-                if *n >= 1 {
-                    continue;
+            }
+            let vs = (lane.check)(sc, &rr);
+            if !vs.is_empty() {
+                let mut seen_keys = BTreeSet::new();
+                for v in vs {
+                    let key = v.key();
+                    if !seen_keys.insert(key.clone()) {
+                        continue;
+                    }
+                    *sum.violations.entry(key.clone()).or_insert(0) += 1;
+                    let n = reported.entry(key.clone()).or_insert(0);
+                    if *n >= 1 {
+                        continue;
+                    }
+                    *n += 1;
+                    // minimise and write a replay file
+                    let (msc, mtrace, mrr, minimised) = minimize::minimize(lane, sc, cfg, &rr, &key);
+                    let mv = (lane.check)(&msc, &mrr).into_iter().find(|x| x.key() == key).unwrap_or(v.clone());
+                    let rep = Replay {
+                        property: mv.property.clone(),
+                        clause: mv.clause.clone(),
+                        signature: mv.signature.clone(),
+                        detail: mv.detail.clone(),
+                        family: lane.family.to_string(),
+                        verif_seed,
+                        index,
+                        case: case_ix,
+                        kind: "run".into(),
+                        scenario: Some(msc),
+                        trace: mtrace,
+                        cfg: Some(CfgRec::from(cfg)),
+                        hist_hash: format!("{:016x}", mrr.hist_hash),
+                        minimised,
+                        history: history_lines(&mrr),
+                    };
+                    let path = write_replay(&rep);
+                    out_line(&format!("V {}", serde_json::to_string(&VReport { violation: mv, replay: path, index }).unwrap()));
                 }
-                *n += 1;
-                // minimise and write a replay file
-                let (msc, mtrace, mrr, minimised) = minimize::minimize(lane, &sc, &cfg, &rr, &key);
-                let mv = (lane.check)(&msc, &mrr).into_iter().find(|x| x.key() == key).unwrap_or(v.clone());
-                let rep = Replay {
-                    property: mv.property.clone(),
-                    clause: mv.clause.clone(),
-                    signature: mv.signature.clone(),
-                    detail: mv.detail.clone(),
-                    family: lane.family.to_string(),
-                    verif_seed,
-                    index,
-                    kind: "run".into(),
-                    scenario: Some(msc),
-                    trace: mtrace,
-                    cfg: Some(CfgRec::from(&cfg)),
-                    hist_hash: format!("{:016x}", mrr.hist_hash),
-                    minimised,
-                    history: history_lines(&mrr),
-                };
-                let path = write_replay(&rep);
-                out_line(&format!("V {}", serde_json::to_string(&VReport { violation: mv, replay: path, index }).unwrap()));
             }
         }
         index += of;
@@ -217,7 +240,8 @@ pub fn replay_file(path: &str) -> Result<(Replay, Vec<Violation>, RunResult), St
         .find(|l| l.prop == rep.property && l.family == rep.family)
         .ok_or_else(|| format!("no lane {}/{}", rep.property, rep.family))?;
     let sc = rep.scenario.clone().ok_or("replay file has no scenario")?;
-    let cfg = rep.cfg.clone().ok_or("replay file has no cfg")?.to();
+    let mut cfg = rep.cfg.clone().ok_or("replay file has no cfg")?.to();
+    cfg.diverge_seed = None;
     let rr = runner::run(&sc, Sched::from_trace(rep.trace.clone(), None), &cfg);
     let key = format!("{}|{}", rep.clause, rep.signature);
     let vs: Vec<Violation> = (lane.check)(&sc, &rr).into_iter().filter(|v| v.key() == key).collect();
@@ -274,6 +298,7 @@ pub fn run_lane(lane: &Lane, verif_seed: u64, count: u64, workers: u64) -> LaneO
     struct W {
         child: std::process::Child,
         last_index: Option<u64>,
+        last_case: usize,
         last_activity: Instant,
         done: bool,
         got_summary: bool,
@@ -321,7 +346,7 @@ pub fn run_lane(lane: &Lane, verif_seed: u64, count: u64, workers: u64) -> LaneO
     };
     for k in 0..workers {
         let child = spawn(k, 0, tx.clone(), k as usize);
-        ws.push(W { child, last_index: None, last_activity: Instant::now(), done: false, got_summary: false });
+        ws.push(W { child, last_index: None, last_case: 0, last_activity: Instant::now(), done: false, got_summary: false });
     }
     let mut total = Summary::default();
     let mut shapes: BTreeSet<u64> = BTreeSet::new();
@@ -335,7 +360,9 @@ pub fn run_lane(lane: &Lane, verif_seed: u64, count: u64, workers: u64) -> LaneO
             Ok(Msg::Line(k, l)) => {
                 ws[k].last_activity = Instant::now();
                 if let Some(rest) = l.strip_prefix("S ") {
-                    ws[k].last_index = rest.trim().parse().ok();
+                    let (a, b) = rest.trim().split_once('.').unwrap_or((rest.trim(), "0"));
+                    ws[k].last_index = a.parse().ok();
+                    ws[k].last_case = b.parse().unwrap_or(0);
                 } else if let Some(rest) = l.strip_prefix("V ") {
                     match serde_json::from_str::<VReport>(rest) {
                         Ok(r) => reports.push(r),
@@ -383,7 +410,7 @@ pub fn run_lane(lane: &Lane, verif_seed: u64, count: u64, workers: u64) -> LaneO
                     let why = format!("{:?}", status);
                     match idx {
                         Some(i) => {
-                            reports.extend(confirm_process_failure(lane, verif_seed, i, &format!("worker died: {why}")));
+                            reports.extend(confirm_process_failure(lane, verif_seed, i, ws[k].last_case, &format!("worker died: {why}")));
                             let shard = i % workers;
                             let child = spawn(shard, i - shard + workers, tx.clone(), k);
                             ws[k].child = child;
@@ -417,10 +444,10 @@ pub fn run_lane(lane: &Lane, verif_seed: u64, count: u64, workers: u64) -> LaneO
 
 /// Re-run one index alone in a fresh child; if it dies or stalls again, report a violation
 /// with a process-level replay file.
-pub fn confirm_process_failure(lane: &Lane, verif_seed: u64, index: u64, why: &str) -> Vec<VReport> {
+pub fn confirm_process_failure(lane: &Lane, verif_seed: u64, index: u64, case: usize, why: &str) -> Vec<VReport> {
     let exe = std::env::current_exe().expect("current_exe");
     let mut child = match Command::new(&exe)
-        .args(["one", "--prop", lane.prop, "--family", lane.family, "--seed", &verif_seed.to_string(), "--index", &index.to_string(), "--quiet"])
+        .args(["one", "--prop", lane.prop, "--family", lane.family, "--seed", &verif_seed.to_string(), "--index", &index.to_string(), "--case", &case.to_string(), "--quiet"])
         .stdout(Stdio::null())
         .stderr(Stdio::null())
         .spawn()
@@ -429,7 +456,7 @@ pub fn confirm_process_failure(lane: &Lane, verif_seed: u64, index: u64, why: &s
         Err(_) => return vec![],
     };
     let t0 = Instant::now();
-    let limit = Duration::from_secs(60);
+    let limit = Duration::from_secs(std::env::var("VERIF_CONFIRM_S").ok().and_then(|s| s.parse().ok()).unwrap_or(60));
     let status = loop {
         match child.try_wait() {
             Ok(Some(s)) => break Some(s),
@@ -460,7 +487,12 @@ pub fn confirm_process_failure(lane: &Lane, verif_seed: u64, index: u64, why: &s
         }
     };
     let s = lanes::seeds(verif_seed, lane.family, index);
-    let sc = (lane.gen)(s.scenario);
+    let _ = s;
+    let sc = {
+        let mut cs = lanes::cases(lane, verif_seed, index);
+        let n = cs.len();
+        cs.swap_remove(case.min(n - 1)).sc
+    };
     let clause = format!("{}.process", lane.prop);
     let rep = Replay {
         property: lane.prop.to_string(),
@@ -470,6 +502,7 @@ pub fn confirm_process_failure(lane: &Lane, verif_seed: u64, index: u64, why: &s
         family: lane.family.to_string(),
         verif_seed,
         index,
+        case,
         kind: "process".into(),
         scenario: Some(sc),
         trace: vec![],
